@@ -50,7 +50,7 @@ m('bs-write-short-finish-is-eof', 'R16c', BS,
 					return
 				}
 ''')
-m('bs-write-limit-after-put', 'R16c,R18b', BS,
+m('bs-write-limit-after-put', 'R16c', BS,
   '''				if size > s.maxCasBlobSizeBytes {
 					recvResult <- status.Errorf(codes.InvalidArgument,
 						"Blob size %d exceeds maximum allowed size %d",
@@ -75,7 +75,7 @@ m('bs-write-exists-compressed-size', 'R16b', BS,
 						resp.CommittedSize = -1
 					}''',
   '''					resp.CommittedSize = size''')
-m('bs-write-ack-before-put-result', 'R16a,R01h', BS,
+m('bs-write-ack-before-put-result', 'R16a', BS,
   '''	err := <-putResult
 	if err == io.EOF {
 		s.accessLogger.Printf("GRPC BYTESTREAM SKIPPED WRITE: %s", resourceName)
@@ -88,7 +88,7 @@ m('bs-write-ack-before-put-result', 'R16a,R01h', BS,
 	if err == io.EOF {
 		s.accessLogger.Printf("GRPC BYTESTREAM SKIPPED WRITE: %s", resourceName)
 ''')
-m('bs-write-put-error-acked', 'R16a,R01h', BS,
+m('bs-write-put-error-acked', 'R16a', BS,
   '''	if err != nil {
 		msg := fmt.Sprintf("GRPC BYTESTREAM WRITE FAILED: %s Cache Put failed: %v", resourceName, err)
 		s.accessLogger.Printf(msg)
@@ -107,7 +107,7 @@ m('bs-write-no-pipe-close', 'R14e', BS,
 m('bs-write-unbuffered-result', 'R14f', BS,
   '	recvResult := make(chan error, 1)',
   '	recvResult := make(chan error)')
-m('bs-write-empty-stream-waits', 'R16c,R14f', BS,
+m('bs-write-empty-stream-waits', 'R16c', BS,
   '''				if firstIteration {
 					// The client closed the stream without sending any
 					// WriteRequest: there is no Put call whose result we
